@@ -5,6 +5,7 @@ pub mod c04;
 pub mod c05;
 pub mod c06;
 pub mod c07;
+pub mod c09;
 pub mod c12;
 pub mod c14;
 pub mod c15;
@@ -26,6 +27,7 @@ pub const PROPS: &[Prop] = &[
     Prop { id: "C05", run: c05::run, replay: c05::replay },
     Prop { id: "C06", run: c06::run, replay: c06::replay },
     Prop { id: "C07", run: c07::run, replay: c07::replay },
+    Prop { id: "C09", run: c09::run, replay: c09::replay },
     Prop { id: "C12", run: c12::run, replay: c12::replay },
     Prop { id: "C14", run: c14::run, replay: c14::replay },
     Prop { id: "C15", run: c15::run, replay: c15::replay },
@@ -100,6 +102,7 @@ pub fn explore(args: &[String]) {
                     st.peak_frame_count, st.peak_locals_size, st.peak_stack_size, run.executor.heap_stats().slots, run.slices);
             }
         }
+        Some("c09") => c09::explore(&args[1]),
         Some("sim") => {
             // qv explore sim <file> [workers] [quantum]
             let src = std::fs::read_to_string(&args[1]).expect("read");
